@@ -521,10 +521,11 @@ def run(ctx):
                "every success path of Connection::%s writes CacheResponse, then only payload PDUs, then EndOfData, then "
                "flushes — or exactly one CacheReset/Error" % meth, where=b.loc,
                detail={"bad_transitions": bad, "final_states": sorted(finals)})
-        # every write is awaited and its error propagated
-        ws = [c for c in b.calls() if event(c) and not b.is_cleanup(c.bb)]
-        chk = [(short(c.res), call_checked(b, c.bb, oc)[0]) for c in ws]
-        ctx.ob("R-ORDER", "Connection::%s:writes-checked" % meth, bool(ws) and all(x for _, x in chk),
+        # every write is awaited and its error propagated.  A write is a write wherever it stands: the call of a private
+        # async helper that (transitively) writes counts as a write of the responder — its result must decide the
+        # responder's outcome — and inside the helper every write must decide the helper's outcome in turn.
+        chk = writes_checked(f, b, event)
+        ctx.ob("R-ORDER", "Connection::%s:writes-checked" % meth, bool(chk) and all(x for _, x in chk),
                "every write / flush of Connection::%s is awaited and an I/O error ends the response" % meth, where=b.loc, detail=chk)
         # the state named in CacheResponse, EndOfData and update is the source's
         st = {}
@@ -650,27 +651,37 @@ def run(ctx):
                     r = render(strip_deep(s.rvalue(st_["rv"])))
                     sv = r == "option::Option::Some{0: Header::version(header)}"
         ctx.ob("R-FLOW", "check_version:stores-version", sv, "the first accepted version is stored for the connection", where=b.loc)
-    cl = SRV + "check_length"
-    b = f.body(cl)
+    # the length check is whichever private function of the server compares the header's length field with an expected
+    # u32 (method or free function, whatever it is called).  Its decision table is read with the server's private
+    # helpers looked into and an Error PDU as a structured value: "Error PDU of the header's version, code 3, quoting the
+    # header" is the same fact whether Error::new is called in place or in a shared constructor, with a literal or a
+    # named constant.  The two parameters are identified by their types, not their names.
+    cl = find_check_length(f)
+    b = f.body(cl) if cl else None
     if b is None:
-        ctx.missing("R-REG", "check_length", cl)
+        ctx.missing("R-REG", "check_length", SRV + "check_length")
     else:
         ctx.saw_fn(cl)
-        names = {"Header::length(header)": "len"}
-        paths, it, err = K.run_absint(f, cl, sym_names=names)
-        if paths is None:
-            ctx.ob("R-REG", "check_length:analysable", False, "cannot establish: " + str(err), where=b.loc)
+        ins = f.fns[cl].get("inputs", [])
+        hp = [b.local_name(i + 1) for i, t_ in enumerate(ins) if re.sub(r"^&(mut )?", "", t_) == PDU + "Header"]
+        ep = [b.local_name(i + 1) for i, t_ in enumerate(ins) if t_ == "u32"]
+        if len(hp) != 1 or len(ep) != 1 or not hp[0] or not ep[0]:
+            ctx.ob("R-REG", "check_length:analysable", False, "cannot establish: the length check does not take one header and "
+                   "one expected length (%s)" % ", ".join(ins), where=b.loc)
         else:
-            from engine.absint import region_constraints as RC
-
-            def out(text):
-                return lambda p: re.sub(r"b'[^']*'", "TEXT", K.rename(outcome_str(p.outcome), names)) == text
-            e3 = out("return Err(Error(Error::new(Header::version(header), 3, header, TEXT)))")
-            K.check_regions(ctx, "R-REG", "check_length", paths, it, [
-                ("len=expected", RC(("len", "expected"), 0, 0), out("return Ok(())"), "Ok"),
-                ("len>expected", RC(("len", "expected"), 1, None), e3, "Error PDU code 3 quoting the header"),
-                ("len<expected", RC(("len", "expected"), None, -1), e3, "Error PDU code 3 quoting the header"),
-            ], b.loc)
+            hp, ep = hp[0], ep[0]
+            names = {"Header::length(%s)" % hp: "len"}
+            paths, it, err = run_header_interp(f, cl, names)
+            if paths is None:
+                ctx.ob("R-REG", "check_length:analysable", False, "cannot establish: " + str(err), where=b.loc)
+            else:
+                from engine.absint import region_constraints as RC
+                e3 = rejects("Header::version(%s)" % hp, 3, hp, names)
+                K.check_regions(ctx, "R-REG", "check_length", paths, it, [
+                    ("len=expected", RC(("len", ep), 0, 0), accepts, "Ok"),
+                    ("len>expected", RC(("len", ep), 1, None), e3, "Error PDU code 3 quoting the header"),
+                    ("len<expected", RC(("len", ep), None, -1), e3, "Error PDU code 3 quoting the header"),
+                ], b.loc)
     rb = f.body(SRV + "recv::{closure#0}")
     if rb is None:
         ctx.missing("R-FLOW", "Connection::recv", SRV + "recv")
@@ -699,100 +710,171 @@ def run(ctx):
         ctx.ob("R-FLOW", "Connection::recv:unknown-pdu-error", ok,
                "recv answers any PDU type other than Serial Query / Reset Query / Error with an Error PDU (code 3) "
                "quoting the offending header", where=rb.loc, detail=detail)
-        # version and length checks are honoured
-        for callee, what in ((SRV + "check_version", "version"), (SRV + "check_length", "length")):
-            cs = [c for c in rb.calls() if c.res == callee and not rb.is_cleanup(c.bb)]
+        # version and length checks are honoured.  The checks are found by what they do (find_check_version /
+        # find_check_length), their call sites wherever the receive path has them: in recv itself or in a private async
+        # helper it awaits (`recv_query(header).await`).  At each site the failure edge of the switch on the result must
+        # not reach anything that reads the socket; when the site is in a helper the same must hold in every awaiting
+        # caller after the helper comes back (nothing is read once the helper has returned — sufficient, and what the
+        # receive path does: it hands the query on).
+        def reads_socket(body_, c, depth=0):
+            if (c.res or "").startswith(PDU) and c.name == "read":
+                return True
+            if (c.trait or "").endswith("AsyncReadExt") and (c.name or "").startswith("read"):
+                return True
+            h = async_helper(f, c)
+            if h is not None and depth < 4:
+                return any(reads_socket(h, x, depth + 1) for x in h.calls() if not h.is_cleanup(x.bb))
+            return False
+
+        def recv_path(body_, after, depth=0, seen=None):
+            """[(body, [(caller body, block of the awaiting call), …])] — the receive coroutine and the private async
+            helpers it awaits, each with the chain of call blocks leading to it."""
+            seen = seen if seen is not None else set()
+            if body_.name in seen or depth > 3:
+                return []
+            seen.add(body_.name)
+            out_ = [(body_, after)]
+            for c in body_.calls():
+                if body_.is_cleanup(c.bb):
+                    continue
+                h = async_helper(f, c)
+                if h is not None:
+                    out_ += recv_path(h, after + [(body_, c.bb)], depth + 1, seen)
+            return out_
+        bodies = recv_path(rb, [])
+        for callee, what in ((find_check_version(f, vfield) or SRV + "check_version", "version"),
+                             (find_check_length(f) or SRV + "check_length", "length")):
             res = []
-            for c in cs:
-                # the Err edge must return Ok(Some(err)) — i.e. leave without reading a payload
-                from engine.rules import derived_locals, switch_on_locals
-                D = derived_locals(rb, c.dest["l"])
-                sws2 = switch_on_locals(rb, D)
-                good = False
-                for sw in sws2:
-                    for v, tb in rb.switch_edges(sw):
-                        if v == 1:
-                            reach = rb.reachable(tb)
-                            reads = [x for x in rb.calls() if x.bb in reach and (x.res or "").startswith(PDU) and x.name == "read"]
-                            good = not reads
-                res.append(good)
+            nsites = 0
+            for body_, chain in bodies:
+                cs = [c for c in body_.calls() if c.res == callee and not body_.is_cleanup(c.bb)]
+                nsites += len(cs)
+                # once a helper holding a check has returned, its callers read nothing any more
+                quiet_after = all(not any(reads_socket(cb, x) for x in cb.calls()
+                                          if x.bb in (cb.reachable(cbb) - {cbb}) and not cb.is_cleanup(x.bb))
+                                  for cb, cbb in chain)
+                for c in cs:
+                    # the Err edge must return the error query — i.e. leave without reading a payload
+                    D = derived_locals(body_, c.dest["l"])
+                    sws2 = switch_on_locals(body_, D)
+                    err_edges = []
+                    for sw in sws2:
+                        edges = body_.switch_edges(sw)
+                        explicit = {v for v, _ in edges if v is not None}
+                        # Result's Err is variant 1: its own arm, or the `otherwise` arm of `if let Ok(..)`
+                        err_edges += [tb for v, tb in edges if v == 1 or (v is None and 1 not in explicit and 0 in explicit)]
+                    good = bool(err_edges) and not any(
+                        reads_socket(body_, x) for tb in err_edges for x in body_.calls()
+                        if x.bb in body_.reachable(tb) and not body_.is_cleanup(x.bb))
+                    res.append(good and quiet_after)
             ctx.ob("R-FLOW", "Connection::recv:%s-error-returned" % what, bool(res) and all(res),
                    "a %s mismatch in recv yields the Error query without consuming further bytes" % what, where=rb.loc,
-                   detail={"call_sites": len(cs)})
+                   detail={"call_sites": nsites})
 
 
-def event_sequences(body, event, depth=0):
-    """The set of event sequences on the success paths of an (acyclic) helper; None if it loops."""
-    from engine.facts import CallSite
+def async_helper(facts, c):
+    """The coroutine body polled by `c(..).await` when `c` calls a private async fn of the crate (None otherwise)."""
+    if facts is None or not c.is_static or not c.res:
+        return None
+    fr = facts.fns.get(c.res)
+    helper = facts.body(c.res + "::{closure#0}")
+    if helper is None or not helper.is_coroutine or fr is None or fr.get("exported"):
+        return None
+    return helper
+
+
+def has_events(facts, body, event, depth=0, seen=None):
+    """Does the coroutine (or an awaited private async helper of it) perform an event at all?"""
+    seen = seen if seen is not None else set()
+    if depth > 4:
+        return True                 # too deep to tell: assume it does (the callers then fail closed)
+    if body.name in seen:
+        return False
+    seen.add(body.name)
+    for c in body.calls():
+        if body.is_cleanup(c.bb) or not c.is_static:
+            continue
+        if event(c):
+            return True
+        h = async_helper(facts, c)
+        if h is not None and has_events(facts, h, event, depth + 1, seen):
+            return True
+    return False
+
+
+def writes_checked(facts, body, event, depth=0, seen=None):
+    """[(callee, result honoured?)] for every event call of `body` and of the private async helpers it awaits.  The call
+    of a helper that performs events is itself such a call (its failure is the failure of a write)."""
+    seen = seen if seen is not None else set()
+    if depth > 4:
+        return [("?helper nesting too deep: %s" % short(body.name), False)]
+    if body.name in seen:
+        return []                   # already listed at its first call site
+    seen.add(body.name)
     oc = outcome(body)
-    out = set()
-    stack = [(0, (), frozenset())]
-    n = 0
-    while stack:
-        bb, seq, seen = stack.pop()
-        n += 1
-        if n > 20000:
-            return None
-        if bb in seen:
-            # the poll loop of an await: harmless revisits carry no new events
+    out = []
+    for c in body.calls():
+        if body.is_cleanup(c.bb) or not c.is_static:
             continue
-        seen = seen | {bb}
-        t = body.term(bb)
-        if t["t"] == "call":
-            c = CallSite(body, bb, t)
-            ev = event(c) if c.is_static else None
-            if ev:
-                seq = seq + (ev,)
-        if t["t"] == "return":
-            out.add(seq)
+        if event(c):
+            out.append((short(c.res), call_checked(body, c.bb, oc)[0]))
             continue
-        for sc in body.succs(bb):
-            if sc in oc.fail_blocks or body.is_cleanup(sc):
-                continue
-            stack.append((sc, seq, seen))
+        h = async_helper(facts, c)
+        if h is not None and has_events(facts, h, event):
+            out.append((short(c.res) + "(..).await", call_checked(body, c.bb, oc)[0]))
+            out += [("%s: %s" % (short(c.res), n), v) for n, v in writes_checked(facts, h, event, depth + 1, seen)]
     return out
 
 
-def run_dfa(body, oc, event, dfa, depth=0):
-    """Forward propagation of automaton states over the CFG (failure blocks excluded)."""
-    start = {0: {0}}
+def run_dfa(body, oc, event, dfa, depth=0, start=(0,), _memo=None):
+    """Forward propagation of automaton states over the CFG (failure blocks excluded).  Returns (bad transitions, the
+    states in which a success return is reached when the body is entered in one of the states `start`).
+
+    An awaited private async helper is a function from automaton states to sets of automaton states: the states its
+    own success returns are reached in when it is entered in the caller's current state (decided by the same
+    propagation over the helper's CFG, loops and branches included — a helper that writes a PDU on one branch and
+    nothing on the other maps s to {δ(s,PDU), s}).  A helper without events is the identity."""
+    from engine.facts import CallSite
+    _memo = _memo if _memo is not None else {}
+    states = {0: set(start)}
     work = [0]
-    states = {0: {0}}
     bad = []
     finals = set()
-    seen_edges = set()
+
+    def note_bad(x):
+        if x not in bad:
+            bad.append(x)
     while work:
         bb = work.pop()
         cur = states.get(bb, set())
         t = body.term(bb)
         out = set(cur)
         if t["t"] == "call":
-            from engine.facts import CallSite
             c = CallSite(body, bb, t)
             ev = event(c) if c.is_static else None
-            evs = [ev] if ev else []
-            if not ev and c.is_static and body.facts is not None:
-                # an awaited private async helper of the same impl: its own event sequence (it must have exactly one on
-                # its success paths) takes the place of the call
-                helper = body.facts.body((c.res or "") + "::{closure#0}")
-                fr = body.facts.fns.get(c.res or "")
-                if helper is not None and helper.is_coroutine and fr is not None and not fr.get("exported") and depth < 3:
-                    seqs = event_sequences(helper, event, depth + 1)
-                    if seqs is not None and len(seqs) == 1:
-                        evs = list(next(iter(seqs)))
-                    elif seqs is not None and len(seqs) > 1:
-                        evs = ["?ambiguous helper %s" % c.res]
-            if evs:
-                nxt = set(cur)
-                for ev in evs:
-                    step = set()
-                    for s in nxt:
-                        if (s, ev) in dfa:
-                            step.add(dfa[(s, ev)])
-                        else:
-                            bad.append({"state": s, "event": ev, "at": body.where(bb)})
-                    nxt = step
-                out = nxt
+            if ev:
+                out = set()
+                for s in cur:
+                    if (s, ev) in dfa:
+                        out.add(dfa[(s, ev)])
+                    else:
+                        note_bad({"state": s, "event": ev, "at": body.where(bb)})
+            elif c.is_static and t.get("target") is not None:
+                helper = async_helper(body.facts, c)
+                if helper is not None and has_events(body.facts, helper, event):
+                    if depth >= 4:
+                        note_bad({"state": sorted(cur), "event": "?helper nesting too deep: %s" % c.res, "at": body.where(bb)})
+                        out = set()
+                    else:
+                        out = set()
+                        for s in cur:
+                            key = (helper.name, s)
+                            if key not in _memo:
+                                _memo[key] = run_dfa(helper, outcome(helper), event, dfa, depth + 1, (s,), _memo)
+                            hb, hf = _memo[key]
+                            for x in hb:
+                                note_bad(x)
+                            out |= hf
         if t["t"] == "return":
             finals |= cur
         for sc in body.succs(bb):
